@@ -302,6 +302,236 @@ def retry_oracle(case, out):
 
 
 # ----------------------------------------------------------------------------------------------
+# retry.Retry: text pin + virtual-clock runs
+# ----------------------------------------------------------------------------------------------
+# every statement of retry.Retry as the instrumenter normalises it (the model RetryModel.retry is the model of
+# exactly this statement list: bizFunc; nil -> return; Next; !ok -> exhausted(err); NewTimer/Reset(duration); select)
+RETRY_LABELS = [
+    "Retry|defer func() { if timer != nil { timer.Stop() } }()|0",
+    "Retry|if timer != nil|0",
+    "Retry|timer.Stop()|0",
+    "Retry|for|0",
+    "Retry|err := bizFunc()|0",
+    "Retry|if err == nil|0",
+    "Retry|return nil|0",
+    "Retry|duration, ok := s.Next()|0",
+    "Retry|if !ok|0",
+    "Retry|return errs.NewErrRetryExhausted(err)|0",
+    "Retry|if timer == nil|0",
+    "Retry|timer = time.NewTimer(duration)|0",
+    "Retry|timer.Reset(duration)|0",
+    "Retry|select|0",
+    "Retry|case <-ctx.Done():|0",
+    "Retry|return ctx.Err()|0",
+    "Retry|case <-timer.C:|0",
+]
+RETRY_FILES = ["retry/retry.go", "retry/exponential.go", "retry/fixed_internal.go"]
+
+X_VERIF_GO = """//go:build verif
+
+package retry
+
+import "time"
+
+// overlay-only (checks/c19.py): the instrumented copy of retry.go arms its timer through these
+var VerifNewTimer func(time.Duration) *time.Timer
+var VerifResetTimer func(*time.Timer, time.Duration) bool
+
+func verifNewTimer(d time.Duration) *time.Timer {
+	if VerifNewTimer != nil {
+		return VerifNewTimer(d)
+	}
+	return time.NewTimer(d)
+}
+
+func verifResetTimer(t *time.Timer, d time.Duration) bool {
+	if VerifResetTimer != nil {
+		return VerifResetTimer(t, d)
+	}
+	return t.Reset(d)
+}
+"""
+
+
+def strat_answers(strat, n):
+    """(interval, ok) of the first n sequential Next calls — used only to place cancellation instants."""
+    w = strat.split(":")
+    out = []
+    if w[0] == "script":
+        for a in [x for x in w[1].split(";") if x]:
+            iv, ok = a.split("/")
+            out.append((int(iv), ok == "1"))
+        out += [(0, False)] * n
+        return out[:n]
+    for k in range(1, n + 1):
+        if w[0] == "fixed":
+            iv, mr = int(w[1]), int(w[2])
+            out.append((iv, True) if mr <= 0 or k <= mr else (0, False))
+        else:
+            i, m, mr = int(w[1]), int(w[2]), int(w[3])
+            out.append((min(i << (k - 1), m), True) if mr <= 0 or k <= mr else (0, False))
+    return out
+
+
+def timeline(strat, steps):
+    """No-cancel timeline [(start, end, wait or None)] on the virtual clock."""
+    ans = strat_answers(strat, len(steps))
+    now, tl = 0, []
+    for k, (kind, d) in enumerate(steps):
+        e = now + d
+        if kind == "o" or not ans[k][1]:
+            tl.append((now, e, None))
+            break
+        tl.append((now, e, ans[k][0]))
+        now = max(e, e + ans[k][0])
+    return tl
+
+
+def gen_virtual(c):
+    r = random.Random(c.seed + 7)
+    full = c.tier == "thorough"
+    H = 3600 * 10 ** 9
+    ivs = [1, 999, 999999, MS, MS + 1, 1500000, 2500000, 999999999, 10 ** 9, 10 ** 9 + 1, 1500 * MS, 59 * 10 ** 9 + 7,
+           H, H + 1, 90 * 60 * 10 ** 9 + 123456789, 1 << 40, (1 << 52) + 1]
+    durs = [0, 0, 1, 999, MS, 1500000, 10 ** 9 + 1, 2 * H]
+    strats = []
+    for iv in ivs:
+        for mr in [0, -1, 1, 3, 17, 39]:
+            strats.append("fixed:%d:%d" % (iv, mr))
+    for (i, m) in [(1, H), (999999, 10 ** 10), (1500000, 1500000 << 20), (MS, 1 << 58), ((1 << 40) + 1, 1 << 57), (333, 333), (7, 1 << 30)]:
+        for mr in [0, -5, 2, 16, 17, 31, 40]:
+            strats.append("exp:%d:%d:%d" % (i, m, mr))
+    for _ in range(40 if not full else 400):
+        n = r.randint(1, 40)
+        ans = []
+        for k in range(n):
+            iv = r.choice([0, 0, -1, -3, -(1 << 40), 1, 5, 999999, 1500000, 10 ** 9 + 1, H + 1, r.randint(-10, 10 ** 7)])
+            ans.append("%d/%d" % (iv, 0 if r.random() < 0.04 else 1))
+        if r.random() < 0.3:
+            ans.append("%d/0" % r.choice([0, 5, -2]))       # a refusal that carries a non-zero interval
+        strats.append("script:" + ";".join(ans))
+    cases = []
+
+    def script(steps):
+        return ",".join("%s%d" % x for x in steps)
+
+    reps = 1 if not full else 4
+    for st in strats * reps:
+        w = st.split(":")
+        mr = int(w[-1]) if w[0] != "script" else None
+        # number of failing attempts: up to 40, incl. 30+ with an unlimited budget
+        if w[0] == "script":
+            k = r.randint(1, 42)
+        elif mr <= 0:
+            k = r.choice([1, 16, 17, 30, 33, 40])
+        else:
+            k = r.choice([mr - 1, mr, mr + 1, mr + 3, 1])
+            k = max(k, 1)
+        steps = [("f", r.choice(durs)) for _ in range(k)]
+        if r.random() < 0.6:
+            steps.append(("o", r.choice(durs)))
+        else:
+            steps += [("f", 0)] * 2 if (mr is not None and mr > 0) or w[0] == "script" else [("o", 0)]
+        # keep the virtual clock inside int64 (the harness counts in int64, the model in Z)
+        while sum((t[2] or 0) + (t[1] - t[0]) for t in timeline(st, steps) if True) >= (1 << 61) and len(steps) > 2:
+            steps.pop(0)
+        tl = timeline(st, steps)
+        if len(tl) == len(steps) and tl[-1][2] is not None:
+            steps.append(("o", 0))                      # the script must not run out before Retry returns
+            tl = timeline(st, steps)
+        if sum(abs(t[2] or 0) + (t[1] - t[0]) for t in tl) >= (1 << 61):
+            continue
+        cases.append("vretry %s none c %s" % (st, script(steps)))
+        kind = r.choice(["canceled", "deadline", "custom"])
+        # the context is already done at entry (cancelled / past its deadline)
+        cases.append("vretry %s at:%d:%s c %s" % (st, r.choice([0, -1, -(10 ** 12)]), kind, script(steps)))
+        j = r.randrange(len(tl))
+        s_j, e_j, w_j = tl[j]
+        spots = [e_j]                                   # exactly at the end of attempt j+1
+        if e_j > s_j:
+            spots.append(r.randint(s_j + 1, e_j))       # inside the attempt
+        if w_j is not None and w_j > 1:
+            spots.append(e_j + r.randint(1, w_j - 1))   # in the middle of the wait
+            spots.append(e_j + w_j - 1)
+            spots.append(e_j + w_j + 1)
+        for at in r.sample(spots, min(len(spots), 2 if not full else 5)):
+            cases.append("vretry %s at:%d:%s c %s" % (st, at, kind, script(steps)))
+        if w_j is not None and w_j > 0 and w[0] != "script":
+            # exactly at the timer instant: both orders of the two simultaneous events
+            cases.append("vretry %s at:%d:%s c %s" % (st, e_j + w_j, kind, script(steps)))
+            cases.append("vretry %s at:%d:%s t %s" % (st, e_j + w_j, kind, script(steps)))
+    return cases
+
+
+def retry_skeleton_and_virtual(c):
+    """Text pin of retry.Retry + the virtual-clock differential.  Needs its own instrumented build."""
+    import os
+    import common
+    ov, labels = c.instrument(files=RETRY_FILES)
+    if ov is None:
+        c.report("C19:retry:skeleton", "the instrumenter cannot process retry/retry.go", {"kind": "build", "log": str(labels)[-2000:]}, found_input=False)
+        return
+    have = sorted(l["label"] for l in labels if l["func"] == "Retry")
+    want = sorted(RETRY_LABELS)
+    extra = [l for l in have if l not in want]
+    missing = [l for l in want if l not in have]
+    c.cov["retry_text_pin"] = {"statements": len(have), "expected": len(want), "extra": extra, "missing": missing}
+    skeleton_broken = bool(extra or missing or len(have) != len(want))
+    src = ov.get(os.path.join(common.REPO, "retry/retry.go"))
+    text = open(src).read() if src else ""
+    if "verifhook.NewTimer(" not in text or "verifhook.ResetTimer(" not in text:
+        c.report("C19:retry:skeleton", "retry.Retry no longer creates one time.Timer and re-arms it with Reset (statements: +%s -%s)" % (extra, missing),
+                 {"kind": "skeleton", "extra_statements": extra, "missing_statements": missing}, found_input=False)
+        return
+    text = text.replace("verifhook.NewTimer(", "verifNewTimer(").replace("verifhook.ResetTimer(", "verifResetTimer(")
+    d = os.path.join(c.tmp, "virt")
+    os.makedirs(d, exist_ok=True)
+    open(os.path.join(d, "retry.go"), "w").write(text)
+    open(os.path.join(d, "x_c19_verif.go"), "w").write(X_VERIF_GO)
+    ov2 = {os.path.join(common.REPO, "retry/retry.go"): os.path.join(d, "retry.go"),
+           os.path.join(common.REPO, "retry/x_c19_verif.go"): os.path.join(d, "x_c19_verif.go")}
+    b, log = c.build_harness(extra_overlay=ov2, pkgs=["c19"], tags="verif,c19virt")
+    found = False
+    if b is None:
+        c.report("C19:retry:skeleton", "the virtual-clock build of retry.Retry fails", {"kind": "build", "log": log[-2500:]}, found_input=False)
+        return
+    cases = gen_virtual(c)
+    vtext = "\n".join(cases) + "\n"
+    rc, impl, err = c.run_impl(b, ["c19virt"], vtext, env={"GODEBUG": "asynctimerchan=1"}, timeout=600)
+    model = c.run_model("retry", vtext)
+    ok = 0
+    dist = {}
+    for k, cs in enumerate(cases):
+        o = impl[k] if k < len(impl) else "<missing>"
+        mo = model[k] if k < len(model) else "<missing>"
+        c.note_case(cs, True)
+        key = cs.split()[1].split(":")[0] + ("/ctx" if " at:" in cs else "")
+        dist[key] = dist.get(key, 0) + 1
+        if o == mo:
+            ok += 1
+            continue
+        if o == "aborted":
+            continue
+        found = True
+        w = cs.split()
+        rep = {"kind": "run", "case": cs, "implementation": o[:1500], "model_virtual_clock": mo[:1500],
+               "reading": "n = invocations of the operation; trace = start-end+<duration handed to the timer> per invocation on the virtual clock; "
+                          "exhausted requires errors.Unwrap(result) to BE the error of invocation <lasterr>; ctx requires the result to BE ctx.Err()",
+               "how": "virtual-clock build (checks/c19.py retry_skeleton_and_virtual): echo '<case>' | GODEBUG=asynctimerchan=1 <harness> c19virt"}
+        if o.partition(" | ")[0] != mo.partition(" | ")[0]:
+            c.report("C19:retry:result", "Retry on the virtual clock: %r, the verified model gives %r" % (o.partition(" | ")[0], mo.partition(" | ")[0]), rep)
+        else:
+            c.report("C19:retry:wait", "Retry on the virtual clock: the waits handed to the timer / invocation times differ from the verified model "
+                                       "(the wait must equal the interval the strategy returned)", rep)
+    c.cov["retry_virtual_clock"] = {"cases": len(cases), "agree": ok, "distribution": dist}
+    c.cov["traces_validated_against_impl"] += ok
+    if skeleton_broken:
+        c.report("C19:retry:skeleton", "the statements of retry.Retry differ from the modelled ones: extra %s, missing %s" % (extra, missing),
+                 {"kind": "skeleton", "extra_statements": extra, "missing_statements": missing,
+                  "virtual_clock_runs_found_a_difference": found}, found_input=False)
+
+
+# ----------------------------------------------------------------------------------------------
 # cases.v
 # ----------------------------------------------------------------------------------------------
 CROSS_PRELUDE = """From Ekit Require Import Common RetryModel.
@@ -365,6 +595,10 @@ def main(tier):
     if binary is None:
         c.report("build", "harness does not build against /repo", {"kind": "build", "log": log[-3000:]}, found_input=False)
         finish(c)
+    import shutil, os
+    plain = os.path.join(c.tmp, "h_plain")
+    shutil.copy(binary, plain)
+    binary = plain
     seq, probe, conc, rt = gen_cases(c)
     static = seq + probe + conc
     text = "\n".join(static) + "\n"
@@ -442,6 +676,8 @@ def main(tier):
     c.cov["traces_validated_against_impl"] = agree
     # ---- int32 counter wrap (known finding; never a C19:budget violation) ----
     int32_wrap_finding(c, binary)
+    # ---- retry.Retry: every statement pinned by text + virtual-clock differential (own instrumented build) ----
+    retry_skeleton_and_virtual(c)
     # ---- cross-check the OCaml extraction against vm_compute inside Coq ----
     r = random.Random(c.seed + 1)
     sp = [(cs, model[k]) for k, cs in enumerate(static) if cs.startswith("seq")]
@@ -482,7 +718,12 @@ def finish(c):
              "max = initial, max = initial*2^k +-1, max = 2^63-1) with 200 sequential Next calls each; constructor argument sweep incl. "
              "invalid; white-box late-caller probes (counter set to every ticket 1..70, the int32 wrap points, flag unset/set); "
              "G goroutines x N calls for the budget; real-time Retry scripts (operation shorter/equal/longer than the interval, "
-             "exhaustion, cancellation by the attempt, deadlines) under GODEBUG=asynctimerchan=1 and =0; non-trivial = the constructor "
+             "exhaustion, cancellation by the attempt, deadlines) under GODEBUG=asynctimerchan=1 and =0; retry.Retry on a VIRTUAL clock "
+             "(instrumented copy whose NewTimer/Reset go through hooks that record the exact duration): sub-millisecond / > 1 s / > 1 h "
+             "intervals, scripted strategies returning 0 and negative intervals and refusals, up to 42 failures incl. 30+ with unlimited "
+             "retries, context already done at entry, ending inside an attempt, at its end, mid-wait, one ns before/after and exactly at the "
+             "timer instant (both orders), compared verbatim with the model: invocations, start/end of each, the duration handed to the timer "
+             "for each wait, errors.Unwrap(result) IS the last failure / result IS ctx.Err(); every statement of retry.Retry pinned by text; non-trivial = the constructor "
              "accepted the arguments; distinct by md5 of the case text",
         assumptions=["float64->int64 conversion of 2^n, n >= 63, yields -2^63 (amd64 CVTTSD2SQ 'integer indefinite'; other architectures saturate "
                      "differently: arm64 gives 2^63-1 — the model is for amd64)",
@@ -496,7 +737,9 @@ def finish(c):
                       "extraction: ExtrOcamlBasic only, no Extract Constant; cross-checked against vm_compute on a sample per run",
                       "OCaml driver ocaml/drv_retry.ml (random schedule generator for the conc cases), Go harness harness/c19 "
                       "(reflect+unsafe access to the unexported counter/flag for the late-caller probes; constructor errors classified by message text), "
-                      "checks/c19.py (case generator, big-integer oracle)"])
+                      "checks/c19.py (case generator, big-integer oracle; expected statement list of retry.Retry; the 2-line textual rewrite "
+                      "verifhook.NewTimer/ResetTimer -> package-local hooks of the instrumented retry.go), harness/c19/virt.go (virtual clock, fake context, "
+                      "timer delivery by Reset(0) under asynctimerchan=1)"])
 
 
 if __name__ == "__main__":
